@@ -167,11 +167,12 @@ def concrete_args(w, est, arg):
     return t["bootstrap" if est == "bootstrap" else "conformal"][arg]
 
 
-def call_estimates(client, pre, cur, est, a, office="G", gut="precinct"):
-    """One real get_estimates call; omitted arguments are really omitted."""
+def call_estimates(client, pre, cur, est, a, office="G", gut="precinct", copy_pre=True):
+    """One real get_estimates call; omitted arguments are really omitted.  copy_pre=False hands the caller's own
+    baseline frame to the client (a caller that loads its baseline data once and polls all night does that)."""
     kw = dict(
         raw_config=synth.config(office, STATES),
-        preprocessed_data=pre.copy(),
+        preprocessed_data=pre.copy() if copy_pre else pre,
         features=list(a["features"]),
         aggregates=list(a["aggregates"]),
         fixed_effects=(dict(a["fixed_effects"]) if isinstance(a["fixed_effects"], dict) else list(a["fixed_effects"])),
@@ -192,6 +193,9 @@ def run_history(w, hist):
     from elexmodel.client import ModelClient
 
     pre, cur = _election(w["eseed"])
+    # the caller's baseline frame: ONE object for the whole history (every call is handed the same frame, as a caller
+    # that loads its baseline data once would do); whatever a run does to it must not change what a later run returns
+    pre = pre.copy()
     client = ModelClient()
     out = []
     for ev in hist:
@@ -201,7 +205,7 @@ def run_history(w, hist):
             if ev["op"] == "est":
                 if ev["fresh"]:
                     client = ModelClient()
-                res = call_estimates(client, pre, cur, ev["est"], concrete_args(w, ev["est"], ev["arg"]))
+                res = call_estimates(client, pre, cur, ev["est"], concrete_args(w, ev["est"], ev["arg"]), copy_pre=False)
                 tok, tabs = result_digest(res)
             elif ev["op"] == "summary":
                 # the summary has its own argument tuple, independent of the arguments of the run it follows
